@@ -24,7 +24,9 @@ var c06Names = []string{"a", "b.go", "Makefile", "x.go.md", "d"}
 var c06Exts = [][]string{nil, {".go"}, {"Makefile"}, {".go", ".md"}, {"go"}, {".md", ".go.md"}}
 
 // lists with repeated and unsorted entries (a list is a set of suffixes; the caller's slice is only read)
-var c06DupExts = [][]string{{".md", ".go", ".md"}, {"go", "go", "Makefile", ".go"}}
+// ... and lists whose only matching entry spans more than one dot segment of the name (".go.md" with no ".md"
+// beside it, "o.md" with no leading dot): an entry is a plain suffix, not the name's last extension
+var c06DupExts = [][]string{{".md", ".go", ".md"}, {"go", "go", "Makefile", ".go"}, {".go.md"}, {"o.md", ".x"}}
 
 type c06Replay struct {
 	Kind   string          `json:"kind"`
